@@ -219,8 +219,8 @@ def detect_oracle(ctx, rng, eng):
     non-square pages.  Each returned line must carry the heights and outline of ITS ridge, in original-image coordinates."""
     import contextlib, io
     for it in range(25 if ctx.quick() else 300):
-        ds = rng.choice([1, 2, 4])
-        rot = rng.choice([0, 0, 1, 2, 3])
+        ds = rng.choice([1, 2, 4, 8])
+        rot = rng.choice([0, 1, 2, 3])
         ncol = rng.choice([1, 2, 2, 3])
         colw = rng.randrange(50, 90)
         Wm = ncol * (colw + 25) + 10
@@ -252,7 +252,9 @@ def detect_oracle(ctx, rng, eng):
         if not ridges:
             continue
         # the image handed to detect() is the ORIGINAL page; detect rotates it itself
-        Hr, Wr = Hm * ds, Wm * ds                  # rotated-image size
+        # rotated-image size: the real network sizes its maps as round(page / ds), so a page is in general NOT map * ds
+        rem = lambda: (rng.randrange(-(ds // 2), (ds + 1) // 2) if ds > 1 and rng.random() < 0.7 else 0)
+        Hr, Wr = Hm * ds + rem(), Wm * ds + rem()
         Ho, Wo = (Hr, Wr) if rot % 2 == 0 else (Wr, Hr)
         image = np.zeros((Ho, Wo, 3), dtype=np.uint8)
         idx = np.arange(Ho * Wo).reshape(Ho, Wo)
@@ -263,7 +265,7 @@ def detect_oracle(ctx, rng, eng):
             sr, sc = divmod(src, Wo)
             return sc, sr
         eng.parsenet = StubNet(maps, ds)
-        inp = dict(map_shape=[Hm, Wm], downsample=ds, rot=rot, aligned_columns=aligned, ridges=ridges)
+        inp = dict(map_shape=[Hm, Wm], downsample=ds, rot=rot, rotated_page_size=[Hr, Wr], aligned_columns=aligned, ridges=ridges)
         ctx.evaluations += 1
         ctx.count('detect:rot=%d' % rot)
         try:
@@ -303,6 +305,39 @@ def detect_oracle(ctx, rng, eng):
             if abs(ext - ds * (r['up'] + r['down'])) > 2 * ds + 2:
                 ctx.violation('detect:outline', "detect: the outline returned with a baseline is not its ridge's outline", inp,
                               float(ext), ds * (r['up'] + r['down']))
+        # rotation clause, sharply: analysing the page in a rotated orientation must give, within one pixel, what analysing the
+        # rotated page itself gives, mapped back through the exact inverse of np.rot90 (the decoding tolerances cancel out)
+        if rot > 0:
+            try:
+                with contextlib.redirect_stdout(io.StringIO()):
+                    p0, b0, h0, t0 = eng.detect(np.rot90(image, k=rot), rot=0)
+            except Exception as e:
+                ctx.violation('detect-raises:' + type(e).__name__, 'LayoutEngine.detect raised %r on the rotated page' % (e,), inp)
+                p0 = None
+            if p0 is not None:
+                o = np.array(to_orig(0, 0), dtype=float)
+                ex = np.array(to_orig(1, 0), dtype=float) - o
+                ey = np.array(to_orig(0, 1), dtype=float) - o
+
+                def back(a):
+                    a = np.asarray(a, dtype=float)
+                    return o[None, :] + a[:, 0:1] * ex[None, :] + a[:, 1:2] * ey[None, :]
+                for name, got_l, ref_l in (('regions', p_list, p0), ('baselines', b_list, b0), ('outlines', t_list, t0)):
+                    refs = [back(a) for a in ref_l]
+                    worst = 0.0
+                    okm = len(got_l) == len(refs)
+                    for g in got_l:
+                        g = np.asarray(g, dtype=float)
+                        ds_ = [float(np.abs(g - r).max()) for r in refs if r.shape == g.shape]
+                        if not ds_:
+                            okm = False
+                            break
+                        worst = max(worst, min(ds_))
+                    if not okm or worst > 1.0 + 1e-6:
+                        ctx.violation('detect:rotation:%s:rot=%d' % (name, rot),
+                                      'rotated analysis: %s are not within one pixel of the un-rotated image coordinates' % name, inp, round(worst, 3))
+                        break
+                ctx.count('detect_rotation_compared')
         if len(ridges) >= 2:
             ctx.nontriv(inp)
         ctx.count('detect_pages')
